@@ -252,3 +252,23 @@ def argp(env, i):
     looked up by position: their parameter names are not part of any interface and may be renamed freely."""
     vals = list(env.values())
     return vals[i] if -len(vals) <= i < len(vals) else None
+
+
+def loops_enclosing(it, *callee_suffixes):
+    """The summarised loops (in whichever function they are written) whose body holds a call resolved to a callee whose
+    qualified name ends with one of the suffixes.  Loops are found through what they do, not through the name of the
+    function they are written in (a loop moved into a helper is the same loop)."""
+    import ast as _ast
+
+    nodes = [n for k, l in it.call_ast.items() if any(k.endswith(sfx) for sfx in callee_suffixes) for n in l]
+    out = []
+    for l in it.loops:
+        nd = l.get("node")
+        if nd is not None and any(x is n for n in nodes for x in _ast.walk(nd)) and not any(l is o for o in out):
+            out.append(l)
+    # innermost only: drop a loop that encloses another candidate
+    inner = []
+    for l in out:
+        if not any((o is not l) and any(x is o["node"] for x in _ast.walk(l["node"])) for o in out):
+            inner.append(l)
+    return inner
